@@ -5,6 +5,10 @@ package memory
 
 func VerifSerialWrite() {
 	cls := vCfg("cls")
+	// an older machine with its own writer is alive in the process: nothing of this machine's output may reach it
+	wd := &verifWriter{}
+	decoy := newVerifSystemW(0, 0, 0, wd)
+	_ = decoy
 	w := &verifWriter{}
 	s := newVerifSystemW(0, 0, 0, w)
 	s.havocAll()
@@ -21,6 +25,7 @@ func VerifSerialWrite() {
 		vAssert("nothing-delivered", w.calls == 2 && len(w.log) == 2)
 	}
 	vAssert("earlier-bytes-kept-in-order", w.log[0] == o0 && w.log[1] == o1)
+	vAssert("other-machines-writer-untouched", wd.calls == 0 && len(wd.log) == 0)
 	vReach("end")
 }
 
